@@ -12,6 +12,28 @@
 #[path = "../stmw.rs"]
 mod stmw;
 
+// The REAL source of `BlsSignature::aggregate`, compiled here from /repo's files: the module is private
+// to mithril-stm (its `benchmark-internals` re-export does not build without `future_snark`), so the
+// directory is included with `#[path]` under the same module path, with the two crate-root aliases its
+// files import. Whatever is in signature.rs of the tree under check is what runs.
+pub type StmResult<T> = anyhow::Result<T>;
+pub type LotteryIndex = u64;
+#[allow(dead_code, unused_imports, clippy::all)]
+mod signature_scheme {
+    #[path = "/repo/mithril-stm/src/signature_scheme/bls_multi_signature/mod.rs"]
+    mod bls_multi_signature;
+    pub use bls_multi_signature::*;
+}
+
+/// the real `BlsSignature::aggregate` on byte forms: (aggregate vk bytes, aggregate sigma bytes)
+fn real_aggregate(vks: &[Vec<u8>], sigmas: &[Vec<u8>]) -> Option<(Vec<u8>, Vec<u8>)> {
+    use signature_scheme::{BlsSignature, BlsVerificationKey};
+    let v: Vec<BlsVerificationKey> = vks.iter().map(|b| BlsVerificationKey::from_bytes(b).ok()).collect::<Option<_>>()?;
+    let s: Vec<BlsSignature> = sigmas.iter().map(|b| BlsSignature::from_bytes(b).ok()).collect::<Option<_>>()?;
+    let (avk, asig) = BlsSignature::aggregate(&v, &s).ok()?;
+    Some((avk.to_bytes().to_vec(), asig.to_bytes().to_vec()))
+}
+
 use hc::{coq, Case, Rng, Sink};
 use mithril_stm::{AggregateSignature, AggregateVerificationKey, Parameters};
 use serde_json::json;
@@ -649,6 +671,8 @@ fn main() {
         sig_b: Vec<Vec<u8>>,
     }
     let mut hon: Vec<Honest> = vec![];
+    // real (vk bytes, sigma bytes) pairs, for the tie check of the aggregation formula
+    let mut pairs: Vec<(Vec<u8>, Vec<u8>)> = vec![];
     for (wi, w) in worlds.iter().enumerate() {
         let msg = rng.bytes(6);
         let msg_b = rng.bytes(6);
@@ -658,6 +682,7 @@ fn main() {
             for s in ss.iter() {
                 let (sigma, _, slot) = ssig_parts(s);
                 book.learn(w, m_, w.leaves[slot as usize].0, &sigma);
+                pairs.push((pool.vk[w.leaves[slot as usize].0].clone(), sigma));
             }
         }
         let mut cover: Vec<u64> = sa.iter().flat_map(|s| s.get_concatenation_signature_indices()).collect();
@@ -806,6 +831,171 @@ fn main() {
             "mutations": labels, "encoding": ENC[enc as usize], "decodes": obs.is_some(),
         });
         push(&mut sink, kind, desc, model, obs, verdict, size > 0);
+    }
+
+    // ---------------------------------------------------------------- tie check of S-agg (1):
+    // the real `BlsSignature::aggregate` against the reference implementation of the formula
+    // (stmw::blsref, blst + blake2 only). Correspondence observation: a mismatch is a broken tie.
+    let ref_rounds = if args.thorough { 40 } else { 5 };
+    for r in 0..ref_rounds {
+        for n in 1..=7usize {
+            // n = 7: degenerate shapes (empty, length mismatch, the same pair twice)
+            let (vks, sgs, shape): (Vec<Vec<u8>>, Vec<Vec<u8>>, &str) = if pairs.is_empty() {
+                (vec![], vec![], "empty")
+            } else if n <= 6 {
+                let ch: Vec<&(Vec<u8>, Vec<u8>)> = (0..n).map(|_| rng.pick(&pairs)).collect();
+                (ch.iter().map(|c| c.0.clone()).collect(), ch.iter().map(|c| c.1.clone()).collect(), "real-pairs")
+            } else {
+                let c = rng.pick(&pairs).clone();
+                let d = rng.pick(&pairs).clone();
+                match r % 3 {
+                    0 => (vec![], vec![], "empty"),
+                    1 => (vec![c.0.clone(), d.0.clone()], vec![c.1.clone()], "length-mismatch"),
+                    _ => (vec![c.0.clone(), c.0.clone(), d.0.clone()], vec![c.1.clone(), c.1.clone(), d.1.clone()], "same-pair-twice"),
+                }
+            };
+            let real = {
+                let (v, s) = (vks.clone(), sgs.clone());
+                hc::catch(move || real_aggregate(&v, &s))
+            };
+            let reference = blsref::aggregate(&vks, &sgs);
+            let equal = real.as_ref() == Some(&reference);
+            if let Some(id) = sink.wants() {
+                let desc = json!({
+                    "shape": shape, "n": vks.len(),
+                    "vks": vks.iter().map(|b| hexs(b)).collect::<Vec<_>>(),
+                    "sigmas": sgs.iter().map(|b| hexs(b)).collect::<Vec<_>>(),
+                    "real": real.as_ref().map(|o| o.as_ref().map(|(v, s)| json!({"vk": hexs(v), "sigma": hexs(s)}))),
+                    "reference": reference.as_ref().map(|(v, s)| json!({"vk": hexs(v), "sigma": hexs(s)})),
+                });
+                let key = key_of(&desc.to_string());
+                sink.push(Case {
+                    id,
+                    kind: "bls-aggregate-reference".into(),
+                    desc,
+                    model: Some("OB true".into()),
+                    impl_obs: coq::ob(equal),
+                    holds: None,
+                    why: None,
+                    known: None,
+                    nontrivial: vks.len() >= 2 && vks.len() == sgs.len(),
+                    key,
+                });
+            }
+        }
+    }
+
+    // ---------------------------------------------------------------- tie check of S-agg (2):
+    // a concrete forgery attempt. phi_f = 1: every index is won by every sigma, so only the BLS check
+    // stands between the crafted aggregate and acceptance. Two sigmas are shifted by +c_b*X / -c_a*X with
+    // the coefficients of a WEAK scheme (coefficients that do not depend on all the signatures): under
+    // such a scheme sum c_i*sigma_i is unchanged and the single pairing check passes although neither
+    // value is a valid signature. The real verifier must reject (single and batched).
+    let n_forge = if args.thorough { 40 } else { 6 };
+    let fworlds: Vec<World> = (0..n_forge)
+        .map(|i| {
+            let n = 3 + (i % 4);
+            let mut keys: Vec<usize> = (0..pool.vk.len()).collect();
+            rng.shuffle(&mut keys);
+            let members: Vec<(usize, u64)> = (0..n).map(|j| (keys[j], 1 + rng.below(20))).collect();
+            let m = rng.range(n as u64, 12);
+            World::new(1000 + i, &pool, &members, Parameters { m, k: m, phi_f: 1.0 })
+        })
+        .collect();
+    const FAMILIES: [&str; 4] = ["slot-constant", "own-sigma", "all-sigmas-before-shift", "unit"];
+    for (fi, w) in fworlds.iter().enumerate() {
+        let msg = rng.bytes(6);
+        let msg_o = rng.bytes(6);
+        let m = w.params.m;
+        // every party signs; the m indices are dealt round-robin so that every party contributes
+        let deal = |msg: &[u8], book: &mut Book| -> Option<Ag> {
+            let ss = w.sign_all(msg);
+            let ns = ss.len() as u64;
+            let mut crafted = vec![];
+            for (j, s) in ss.iter().enumerate() {
+                let (sigma, _, slot) = ssig_parts(s);
+                book.learn(w, msg, w.leaves[slot as usize].0, &sigma);
+                let idx: Vec<u64> = (0..m).filter(|i| i % ns == j as u64).collect();
+                crafted.push(ssig_build(&sigma, &idx, slot)?);
+            }
+            w.aggregate(&crafted, msg).ok().map(|a| Ag::of_real(&a))
+        };
+        let base = deal(&msg, &mut book);
+        let other = deal(&msg_o, &mut book);
+        for fam in FAMILIES {
+            let x_scalar = rng.bytes(16);
+            let pa = rng.next();
+            let pb = rng.next();
+            let enc = rng.below(3);
+            let (Some(base), Some(other)) = (&base, &other) else { continue };
+            let ns = base.sigs.len();
+            if ns < 3 {
+                continue;
+            }
+            // slots a != b, both >= 1
+            let a = 1 + (pa % (ns as u64 - 1)) as usize;
+            let b = 1 + ((a - 1) + 1 + (pb % (ns as u64 - 2)) as usize) % (ns - 1);
+            let sigmas: Vec<Vec<u8>> = base.sigs.iter().map(|s| s.sigma.clone()).collect();
+            let coeff = |i: usize| -> Vec<u8> {
+                match fam {
+                    "slot-constant" => blsref::coeff_const(i).to_vec(),
+                    "own-sigma" => blsref::coeff_own(&sigmas[i], i).to_vec(),
+                    "all-sigmas-before-shift" => blsref::coeff_all(&sigmas, i).to_vec(),
+                    _ => vec![1u8],
+                }
+            };
+            let x = blsref::g1_times(&x_scalar);
+            let (Some(sa), Some(sb)) = (blsref::p1_of(&sigmas[a]), blsref::p1_of(&sigmas[b])) else { continue };
+            let shifted_a = blsref::p1_bytes(&blsref::p1_add(&sa, &blsref::p1_mul(&x, &coeff(b))));
+            let shifted_b = blsref::p1_bytes(&blsref::p1_add(&sb, &blsref::p1_neg(&blsref::p1_mul(&x, &coeff(a)))));
+            let mut forged = base.clone();
+            forged.sigs[a].sigma = shifted_a.clone();
+            forged.sigs[b].sigma = shifted_b.clone();
+            let mb = Mb { w, params: w.params, msg: msg.clone(), ag: forged };
+            let mo = Mb { w, params: w.params, msg: msg_o.clone(), ag: other.clone() };
+            let label = format!("bls-shifted-pair:{}", fam);
+            let extra = |desc: &mut serde_json::Value| {
+                desc["mutation"] = json!(label);
+                desc["encoding"] = json!(ENC[enc as usize]);
+                desc["forgery"] = json!({
+                    "world": fi, "slot_a": a, "slot_b": b, "x_scalar_le": hexs(&x_scalar),
+                    "coefficient_family": fam, "c_a_le": hexs(&coeff(a)), "c_b_le": hexs(&coeff(b)),
+                    "honest_sigmas": sigmas.iter().map(|s| hexs(s)).collect::<Vec<_>>(),
+                    "sigma_a_shifted": hexs(&shifted_a), "sigma_b_shifted": hexs(&shifted_b),
+                });
+            };
+            // single verification
+            let obs = observe(&mb, enc);
+            let verdict = match obs {
+                Some(0) => judge(&mb, &pool, &book).and(Err("an aggregate with two shifted (invalid) BLS signatures was accepted".to_string())),
+                _ => Ok(()),
+            };
+            let model = obs.map(|_| format!("C01.Model.run_verify ({})", model_member(&mb, &pool, &book)));
+            let mut desc = desc_member(&mb, &pool);
+            extra(&mut desc);
+            desc["decodes"] = json!(obs.is_some());
+            push(&mut sink, "bls-shifted-pair".into(), desc, model, obs, verdict, true);
+            // the same aggregate in a batch with an honest member (order alternates)
+            let mbs = if fi % 2 == 0 { vec![mo, mb] } else { vec![mb, mo] };
+            let obs = observe_batch(&mbs, enc);
+            let verdict = match obs {
+                Some(0) => mbs
+                    .iter()
+                    .enumerate()
+                    .try_for_each(|(j, mb)| judge(mb, &pool, &book).map_err(|e| format!("batch accepted, member {}: {}", j, e)))
+                    .and(Err("a batch containing an aggregate with two shifted (invalid) BLS signatures was accepted".to_string())),
+                _ => Ok(()),
+            };
+            let model = obs.map(|_| {
+                format!(
+                    "C01.Model.run_batch {}",
+                    coq::list(&mbs.iter().map(|mb| format!("({})", model_member(mb, &pool, &book))).collect::<Vec<_>>())
+                )
+            });
+            let mut desc = json!({ "batch": mbs.iter().map(|mb| desc_member(mb, &pool)).collect::<Vec<_>>(), "decodes": obs.is_some() });
+            extra(&mut desc);
+            push(&mut sink, "bls-shifted-pair-batch".into(), desc, model, obs, verdict, true);
+        }
     }
     sink.finish();
 }
